@@ -4,7 +4,8 @@ The tree is read through harness/oracle/cstread.ts_parse (own parser instance, n
 nix_manipulator). Anything outside the fragment is refused with `OutsideFragment(why)`:
 
     source_code : comments, exactly one expression, comments
-    expression  : variable / integer / float / "string" / path leaf, `[ … ]`, `{ … }`, `rec { … }`
+    expression  : variable / integer / float / "string" / path leaf, `[ … ]`, `{ … }`, `rec { … }`,
+                  `( comments expr comments )`, `function comments argument` (apply_expression)
     set members : bindings whose attrpath is ONE identifier or "string" (no inherit, no `${…}` name),
                   comments anywhere between the tokens of a binding, none between `rec` and `{`
 
@@ -59,6 +60,7 @@ class _Conv:
 
     # ------------------------------------------------------------------ tree form
     # cst  : ("l", kind, text) | ("L", items, closeGap) | ("S", rec, recGap, items, closeGap)
+    #      | ("P", items, closeGap) | ("A", cst, gc, gap, cst)
     # item : ("c", gap, text) | ("e", gap, cst) | ("b", gap, name, c1, g1, c2, g2, cst, c3, g3)
     def expr(self, n):
         k = LEAF_KINDS.get(n.type)
@@ -111,6 +113,40 @@ class _Conv:
                     raise OutsideFragment(c.type)
                 pos, prev = c.end_byte, c
             return ("S", rec, rec_gap, items, self.gap(pos, ch[-1].start_byte))
+        if n.type == "parenthesized_expression":
+            ch = n.children
+            if len(ch) < 3 or ch[0].type != "(" or ch[-1].type != ")":
+                raise OutsideFragment("parenthesis shape")
+            items, pos, prev, n_expr = [], ch[0].end_byte, ch[0], 0
+            for c in ch[1:-1]:
+                g = self.gap(pos, c.start_byte)
+                self.rows(prev, c, g)
+                if c.type == "comment":
+                    items.append(("c", g, self.t(c.start_byte, c.end_byte)))
+                else:
+                    n_expr += 1
+                    items.append(("e", g, self.expr(c)))
+                pos, prev = c.end_byte, c
+            if n_expr != 1:
+                raise OutsideFragment("parenthesis shape")
+            return ("P", items, self.gap(pos, ch[-1].start_byte))
+        if n.type == "apply_expression":
+            ch = n.children
+            fn, arg = n.child_by_field_name("function"), n.child_by_field_name("argument")
+            if fn is None or arg is None or len(ch) < 2 or ch[0].id != fn.id or ch[-1].id != arg.id:
+                raise OutsideFragment("apply shape")
+            f = self.expr(fn)
+            run, pos, prev = [], fn.end_byte, fn
+            for c in ch[1:-1]:
+                if c.type != "comment":
+                    raise OutsideFragment("apply shape")
+                g = self.gap(pos, c.start_byte)
+                self.rows(prev, c, g)
+                run.append((g, self.t(c.start_byte, c.end_byte)))
+                pos, prev = c.end_byte, c
+            g = self.gap(pos, arg.start_byte)
+            self.rows(prev, arg, g)
+            return ("A", f, run, g, self.expr(arg))
         raise OutsideFragment(n.type)
 
     def binding(self, g, n):
@@ -181,6 +217,10 @@ def flatten(x) -> str:
         return "[" + "".join(flatten(i) for i in x[1]) + x[2] + "]"
     if k == "S":
         return ("rec" + x[2] if x[1] else "") + "{" + "".join(flatten(i) for i in x[3]) + x[4] + "}"
+    if k == "P":
+        return "(" + "".join(flatten(i) for i in x[1]) + x[2] + ")"
+    if k == "A":
+        return flatten(x[1]) + "".join(g + c for g, c in x[2]) + x[3] + flatten(x[4])
     if k == "c":
         return x[1] + x[2]
     if k == "e":
@@ -201,6 +241,10 @@ def sexp(x):
         return ["L", [sexp(i) for i in x[1]], hx(x[2])]
     if k == "S":
         return ["S", "t" if x[1] else "f", hx(x[2]), [sexp(i) for i in x[3]], hx(x[4])]
+    if k == "P":
+        return ["P", [sexp(i) for i in x[1]], hx(x[2])]
+    if k == "A":
+        return ["A", sexp(x[1]), [[hx(g), hx(c)] for g, c in x[2]], hx(x[3]), sexp(x[4])]
     if k == "c":
         return ["c", hx(x[1]), hx(x[2])]
     if k == "e":
@@ -222,6 +266,10 @@ def code_tokens(x) -> list[str]:
         return ["["] + [t for i in x[1] for t in code_tokens(i)] + ["]"]
     if k == "S":
         return (["rec"] if x[1] else []) + ["{"] + [t for i in x[3] for t in code_tokens(i)] + ["}"]
+    if k == "P":
+        return ["("] + [t for i in x[1] for t in code_tokens(i)] + [")"]
+    if k == "A":
+        return code_tokens(x[1]) + code_tokens(x[4])
     if k == "c":
         return []
     if k == "e":
